@@ -86,6 +86,12 @@ var AllScenarios = func() []Scenario {
 			}
 		}
 	}
+	// a HighQc of the wrong phase (L=10), appended after the Late scenarios
+	for _, bump := range []bool{false, true} {
+		for _, x := range []pq{{0, 0, 0}, {0, 1, 0}, {0, 2, 0}, {0, 0, 3}, {0, 0, 4}, {0, 0, 5}, {0, 0, 6}} {
+			out = append(out, Scenario{Bump: bump, P: x.p, Q1: x.q1, Q2: x.q2, L: 10})
+		}
+	}
 	return out
 }()
 
